@@ -9,6 +9,16 @@ var storeReal = []string{"storage/mkvs tree, cache, iterator, overlay, commit", 
 
 func init() {
 	reg(&core.Property{
+		ID: "C02", Level: "exploration",
+		Batches: []core.Batch{
+			{Name: "groups", Engine: store.RootHashEngine{}, Quick: 40000, Thorough: 1200000,
+				Rule: "a run is non-trivial when it has at least two histories, a non-empty target and at least two generated operations"},
+		},
+		Real:        storeReal,
+		Stub:        []string{"memdb: harness NodeDB stub (content-addressed map of serialized nodes) used for most tree-level histories; badger/pathbadger used for the rest"},
+		Assumptions: []string{"Insert(key, nil) is outside the contract (nil encodes absence)", "an injected storage error inside a mutating operation is outside the property's quantifier (not generated here)"},
+	})
+	reg(&core.Property{
 		ID: "C03", Level: "exploration",
 		Batches: []core.Batch{
 			{Name: "faultfree", Engine: store.TreeMapEngine{}, Quick: 100000, Thorough: 4000000,
